@@ -41,8 +41,15 @@ fn plant_string(rng: &mut Rng, s: &mut Snapshot, packed: bool) {
     s.reg[0] = start;
     let len = rng.below(5) as u16;
     let mut a = start;
+    // now and then the string carries an ESC with more characters behind it (what --minimal drops is the ESC alone: D9)
+    let esc_at: Option<u16> = if len >= 2 && rng.chance(1, 4) { Some(rng.below((len - 1) as u64) as u16) } else { None };
     for k in 0..len {
-        let lo = 1 + rng.below(255) as u16;
+        let mut lo = 1 + rng.below(255) as u16;
+        if esc_at == Some(k) {
+            lo = 27;
+        } else if esc_at.is_some() && k == len - 1 && rng.chance(1, 2) {
+            lo = 'm' as u16;
+        }
         let w = if packed {
             let last_odd = k == len - 1 && rng.chance(1, 2);
             let hi = if last_odd { 0 } else { 1 + rng.below(255) as u16 };
